@@ -292,12 +292,48 @@ def run_tally(chk, tmp):
     DIST["tally"] = dist
 
 
+def run_stamps(chk, tmp):
+    """Props theorem c20_timestamp_strings_chronological talks about `render`: tie it to str(datetime)."""
+    import datetime
+    rng = chk.rng
+    cmp_ = core.CoqCompare("c20_stamp", rd.IMPORTS + "\nFrom Jade Require Import EventsProofs.",
+                           "fun c => (render (fst c), render (snd c), str_ltb (render (fst c)) (render (snd c)))",
+                           "prod_eqb (prod_eqb String.eqb String.eqb) Bool.eqb", "stamp * stamp", "string * string * bool", shard=300)
+
+    def rand_dt():
+        if rng.random() < 0.5:
+            base = datetime.datetime(rng.choice([1, 999, 1000, 1999, 2024, 2024, 2026, 9999]), rng.randint(1, 12), rng.randint(1, 28),
+                                     rng.randint(0, 23), rng.randint(0, 59), rng.randint(0, 59))
+        else:
+            base = datetime.datetime(2024, 12, 31, 23, 59, 59) + datetime.timedelta(seconds=rng.randint(-2, 2))
+        return base.replace(microsecond=rng.choice([0, 0, 1, 10, 100, 99, 10000, 500000, 999999, rng.randint(0, 999999)]))
+
+    def term(d):
+        us = d.microsecond
+        fr = "None" if us == 0 else f"(Some ({us // 10000}, {us // 100 % 100}, {us % 100})%N)"
+        return f"(mkStamp {d.year // 100} {d.year % 100} {d.month} {d.day} {d.hour} {d.minute} {d.second} {fr})"
+    n = 300 if chk.tier == "quick" else 4000
+    for _ in range(n):
+        a, b = rand_dt(), rand_dt()
+        if rng.random() < 0.15:
+            b = a.replace(microsecond=rng.choice([0, a.microsecond, 1]))
+        sa, sb = str(a), str(b)
+        cmp_.add(f"({term(a)}, {term(b)})", f"({cstr(sa)}, {cstr(sb)}, {'true' if sa < sb else 'false'})", {"a": sa, "b": sb})
+        chk.count(("stamp", sa, sb), nontrivial=sa != sb)
+        if (sa < sb) != (a < b):
+            chk.violation("timestamp-string-order", "str(datetime) order differs from chronological order",
+                          {"component": "StructuredLogEvent.timestamp = str(datetime.now())", "a": sa, "b": sb})
+    _finish_cmp(chk, cmp_, "EventsProofs.render / str_ltb vs str(datetime) / Python str <",
+                "correspondence EventsProofs.render vs str(datetime)")
+    DIST["stamps"] = {"pairs": n}
+
+
 def run(chk):
     proofs_ok = core.standard_proof_phase(chk, "C20", gen_needed=("ReportsGen",))
     rd.quiet_jade_logging()
     tmp = tempfile.mkdtemp(prefix="verif_c20_")
     try:
-        for part in (run_events, run_events_multiprocess, run_aggregation, run_stats, run_tally):
+        for part in (run_events, run_events_multiprocess, run_aggregation, run_stats, run_tally, run_stamps):
             if not all((core.THEORIES / f).exists() for f in ("Events.vo", "Stats.vo", "Tally.vo")):
                 break   # the models themselves did not build: nothing to compare with (already reported)
             try:
@@ -323,7 +359,7 @@ def run(chk):
     chk.coverage["rule"] = chk.notes["rule"]
     chk.assumptions += [
         "A-PY: json/logging/pandas+pyarrow round trips behave as documented (exercised by every case, not proved)",
-        "timestamps are compared as strings (as the code does); that str(datetime) order is chronological is checked per case by the oracle, not proved",
+        "timestamps are compared as strings (as the code does); string order = chronological order is proved for the str(datetime) format (c20_timestamp_strings_chronological; naive datetimes, years 0001-9999), `render` is tied to str(datetime) by correspondence",
         "statistics: exact integer arithmetic; binary64 rounding of sums/means is not modelled (integer-valued samples with exact sums in the tie)",
         "the summary is consolidated after the event files are complete (EventsSummary never re-consolidates: theorem c20_events_idempotent, part 3)",
         "tally: one result row per job, names among the configured jobs (C04/C08), rows of the shapes JADE writes (generated writer_shapes)",
